@@ -5,7 +5,8 @@ EXTENDS StatusClient
 TraceLog == ndJsonDeserialize("trace.ndjson")
 VARIABLES l, bad
 SubClass(e) == IF e.sub = 0 THEN "whole_second" ELSE "with_subsecond_part"
-AgeClass(e) == IF e.age > e.p THEN "past_period" ELSE IF e.age = e.p THEN "at_boundary" ELSE "inside_period"
+AgeClass(e) == IF e.age > e.p THEN "past_period" ELSE IF e.age = e.p THEN "at_boundary"
+               ELSE IF e.age < 0 THEN "trusted_state_ahead_of_block_time" ELSE "inside_period"
 
 TInit == l = 1 /\ bad = {} /\ evlog = <<>>
 TNext == /\ l < Len(TraceLog)
